@@ -74,6 +74,10 @@ pub struct Plan {
     /// swarm knob: size of the record store's in-memory cache (0 = the default of 25); with 1 or 2 most reads come from disk
     #[serde(default)]
     pub cache: usize,
+    /// swarm knob: record kinds collide on keys (transaction sets of the scratchpad owners; a chunk whose content
+    /// is register 0's meta ++ owner key)
+    #[serde(default)]
+    pub collide: bool,
     pub steps: Vec<Step>,
 }
 
@@ -143,8 +147,9 @@ fn gen_delivery(rng: &mut Rng, prop: &str, mutable_only: bool, unpaid_bias: bool
     for _ in 0..n_items {
         let id = rng.below(6) as u32;
         let flag = match kind {
-            // transactions: 0 = invalid signature, 1 = valid, 2 = validly signed transaction of ANOTHER owner
-            2 => match rng.below(12) { 0 | 1 => 0, 2 | 3 => 2, _ => 1 },
+            // transactions: 0 = invalid signature, 1 = valid, 2 = validly signed transaction of ANOTHER owner,
+            // 3 = validly signed, then one signed field (output content / output key / parent / content) altered
+            2 => match rng.below(12) { 0 => 0, 1 => 3, 2 | 3 => 2, _ => 1 },
             // register ops: 0 owner, 1 listed writer, 2 stranger, 3 / 4 = op NAMING the owner / the listed writer
             // as its source but signed by the stranger's key
             _ => if rng.chance(1, 5) { 2 + rng.below(3) as u8 } else { rng.below(2) as u8 },
@@ -311,6 +316,7 @@ impl Sim for NodeSim {
             seed: rng.next_u64(),
             // swarm knob: a sparse routing table (fewer than K peers known) up to more than K
             cache: *rng.pick(&[0usize, 0, 1, 2]),
+            collide: ctx.mode != "concurrent" && ctx.mode != "lagging_writes" && rng.chance(1, 4),
             n_peers: match rng.below(4) { 0 => rng.urange(7, 18), 1 => rng.urange(19, 40), _ => 24 },
             steps,
         }
